@@ -429,9 +429,9 @@ impl<R: Rng + Send> Multiplexor<R> {
     }
 }
 
-#[cfg(penguin_rs_verif)]
+#[cfg(all(penguin_rs_verif, not(loom)))]
 impl<R> Multiplexor<R> {
-    /// Verification hook (compiled only with `--cfg penguin_rs_verif`): a probe that reports the
+    /// Verification hook (compiled only with `--cfg penguin_rs_verif`, not under loom): a probe that reports the
     /// number of entries in the flow table. It holds a weak reference only, so it does not keep
     /// the table (and the channels in it) alive: once the `Multiplexor` and its task are gone
     /// the table is freed as usual and the probe reports 0.
